@@ -1,4 +1,4 @@
 SPECIFICATION Spec
-CONSTANTS MaxLen = 4 CopyOnCompute = "each"
+CONSTANTS MaxLen = 4 Classes <- QuickClasses CopyOnCompute = "each"
 INVARIANT Emitted
 CHECK_DEADLOCK FALSE
